@@ -1,4 +1,5 @@
 import ZbossModel.Proofs.RxLog
+import ZbossModel.Props.C01
 /-! # C02 - the receiver is total: no input or handler failure makes it raise or go deaf -/
 namespace Zboss.Rx
 open Gen
@@ -86,5 +87,73 @@ theorem C02_pending_bounded (b : Bytes) : (run tryFrame b).2.length < 65537 := b
 theorem C02_ack_any_state (h : Frame → Bool) (st : RxState) (f : Frame) (ha : isAck f = true) :
     (handleFrame h st f).2 = [] := by
   rw [(handle_out h st f).1]; simp [outsOf, ha]
+
+
+/-! ## never deaf -/
+
+/-- a declared extent is at most 65537 bytes: no header can claim more of the stream -/
+theorem extent_le (b : Bytes) (e : Nat) (h : extent b = some e) : e ≤ 65537 := by
+  unfold extent at h
+  split at h
+  · injection h with h
+    have := fromLE_lt (slice b 2 4)
+    have hl : (slice b 2 4).length ≤ 2 := by simp [slice]
+    have : 256 ^ (slice b 2 4).length ≤ 256 ^ 2 := Nat.pow_le_pow_right (by omega) hl
+    omega
+  · cases h
+
+/-- a buffer that does not start with the start marker has no extent -/
+theorem extent_none_of_head (b : Bytes) (x : UInt8) (t : Bytes) (hb : b = x :: t) (hx : x ≠ 0xDE) : extent b = none := by
+  unfold extent
+  split
+  · rename_i h
+    have := (headerOk_iff b).mp h
+    have h2 := this.2.1
+    subst hb
+    exfalso
+    have : (toLE 2 Gen.signature) = [0xDE, 0xAD] := by decide
+    rw [this] at h2
+    cases t with
+    | nil => simp at h2
+    | cons y t' => simp at h2; exact hx h2.1
+  · rfl
+
+/-- **never deaf**: whatever was received before (`g`: noise, hostile headers, truncated frames - anything),
+    once 65537 quiet bytes (here: zeros) have passed, the next well-formed data frame is handed to the upper
+    layer as soon as it has arrived - under every chunking of the reads and whatever the handler did -/
+theorem C02_not_deaf (h : Frame → Bool) (tr : Bool) (chunks : List Bytes) (g w : Bytes) (k : Nat) (f : Frame) (n : Nat)
+    (p : HLPacket) (hk : 65537 ≤ k) (hs : chunks.flatten = g ++ List.replicate k 0 ++ w)
+    (hok : tryFrame w = .ok f n) (hd : isAck f = false) (hp : f.hl = some p) :
+    f ∈ deliveredOf (session h { transport := tr } chunks).2 := by
+  apply C01_complete_prompt h tr chunks (g.length + k) n f p
+  · rw [hs]
+    have : (g ++ List.replicate k 0 ++ w).drop (g.length + k) = w := by
+      rw [List.append_assoc, ← List.drop_drop, List.drop_left]
+      simp
+    rw [this]; exact hok
+  · exact hd
+  · exact hp
+  · intro j hj e he
+    rw [hs] at he
+    rcases Nat.lt_or_ge j g.length with hlt | hge
+    · have := extent_le _ e he
+      omega
+    · -- inside the quiet bytes: the buffer starts with a zero
+      exfalso
+      have hd : (g ++ List.replicate k 0 ++ w).drop j = (0 : UInt8) :: (List.replicate (k - (j - g.length) - 1) 0 ++ w) := by
+        rw [List.append_assoc]
+        have : j = g.length + (j - g.length) := by omega
+        rw [this, ← List.drop_drop, List.drop_left, List.drop_append_of_le_length (by simp; omega)]
+        rw [List.drop_replicate]
+        have : k - (j - g.length) = (k - (g.length + (j - g.length) - g.length) - 1) + 1 := by omega
+        rw [this, List.replicate_succ]
+        simp
+      rw [extent_none_of_head _ 0 _ hd (by decide)] at he
+      cases he
+
+/-- the premises are satisfiable: a command frame after garbage and a quiet gap -/
+example : (match tryFrame (Frame.stamp 0 (Frame.mkData 0xC0 ⟨some 0x20000#32, [1]⟩ 12)).serialize with
+    | .ok f n => n == 14 && !isAck f && f.hl.isSome
+    | _ => false) = true := by decide +kernel
 
 end Zboss.Rx
